@@ -2654,6 +2654,30 @@ def collapse_aliases(fn):
                 if any(isinstance(n, (ast.Global, ast.Nonlocal))
                        for n in ast.walk(fn)):
                     continue
+                # `y = x` with x the variable of an enclosing loop and y
+                # only used in the statements that follow in this block:
+                # y is spelled x
+                if len(y_stores) == 1 and len(x_stores) == 1 and any(
+                        isinstance(lp_, ast.For) and any(
+                            t_ is x_stores[0] for t_ in ast.walk(lp_.target))
+                        and any(s_ is st for s_ in ast.walk(lp_))
+                        for lp_ in ast.walk(fn)):
+                    after = {id(n) for s_ in blk[i + 1:]
+                             for n in ast.walk(s_)}
+                    if all(id(n) in after or n is y_stores[0]
+                           for n in names if n.id == y) and not any(
+                            isinstance(n, ast.Name) and n.id in (x, y)
+                            for d in ast.walk(fn) if d is not fn
+                            and isinstance(d, (ast.FunctionDef, ast.Lambda))
+                            for n in ast.walk(d)) and not any(
+                            n.id == x and isinstance(n.ctx, ast.Store)
+                            and id(n) in after for n in names):
+                        for n in names:
+                            if n.id == y:
+                                n.id = x
+                        del blk[i]
+                        done = True
+                        break
                 if len(y_stores) > 1 and len(x_stores) == 1 and (
                         "__h" in x or "__inl" in x):
                     # a generated name built up in this block and handed to
@@ -6105,4 +6129,85 @@ def adopt_static_functions(tree):
             done = True
     if done:
         ast.fix_missing_locations(tree)
+    return done
+
+
+def fuse_collect_loops(fn):
+    """`L = []; for x in IT: [if c:] L.append(E)` directly followed by
+    `for T in L: BODY` (L generated by the inliner from a generator helper,
+    used nowhere else) -> `for x in IT: [if c:] T = E; BODY` - the
+    interleaving the generator had"""
+    done = False
+    for par in [fn] + list(_walk_own(fn)):
+        for fld in ("body", "orelse", "finalbody"):
+            blk = getattr(par, fld, None)
+            if not isinstance(blk, list):
+                continue
+            i = 0
+            while i + 2 < len(blk):
+                a, b, c = blk[i:i + 3]
+                i += 1
+                if not (isinstance(a, ast.Assign) and len(a.targets) == 1
+                        and isinstance(a.targets[0], ast.Name)
+                        and isinstance(a.value, ast.List)
+                        and not a.value.elts
+                        and ("__inl" in a.targets[0].id
+                             or a.targets[0].id.startswith("_items"))):
+                    continue
+                L = a.targets[0].id
+                # an alias `X = L` between the two loops
+                span = 3
+                X = L
+                if isinstance(c, ast.Assign) and len(c.targets) == 1 and \
+                        isinstance(c.targets[0], ast.Name) and isinstance(
+                            c.value, ast.Name) and c.value.id == L and \
+                        i + 2 < len(blk) and (
+                            "__inl" in c.targets[0].id
+                            or "__h" in c.targets[0].id):
+                    X = c.targets[0].id
+                    c = blk[i + 2]
+                    span = 4
+                    if sum(1 for n in ast.walk(fn) if isinstance(
+                            n, ast.Name) and n.id == X) != 2:
+                        continue
+                if not (isinstance(b, ast.For) and not b.orelse and len(
+                        b.body) == 1 and isinstance(c, ast.For)
+                        and not c.orelse and isinstance(c.iter, ast.Name)
+                        and c.iter.id == X):
+                    continue
+                inner = b.body[0]
+                guard = None
+                if isinstance(inner, ast.If) and not inner.orelse and len(
+                        inner.body) == 1:
+                    guard, inner = inner, inner.body[0]
+                if not (isinstance(inner, ast.Expr) and isinstance(
+                        inner.value, ast.Call) and isinstance(
+                        inner.value.func, ast.Attribute)
+                        and inner.value.func.attr == "append"
+                        and isinstance(inner.value.func.value, ast.Name)
+                        and inner.value.func.value.id == L
+                        and len(inner.value.args) == 1):
+                    continue
+                if sum(1 for n in ast.walk(fn) if isinstance(n, ast.Name)
+                       and n.id == L) != 3:
+                    continue
+                # loop variables of the first loop must not clash with
+                # names of the second
+                v1 = set(target_names(b.target))
+                if v1 & {n.id for n in ast.walk(c) if isinstance(
+                        n, ast.Name)}:
+                    continue
+                bind = ast.Assign(targets=[c.target],
+                                  value=inner.value.args[0])
+                ast.copy_location(bind, c)
+                new_body = [bind] + c.body
+                if guard is not None:
+                    guard.body = new_body
+                    b.body = [guard]
+                else:
+                    b.body = new_body
+                blk[i - 1:i - 1 + span] = [b]
+                ast.fix_missing_locations(b)
+                done = True
+                i = max(0, i - 1)
     return done
